@@ -88,7 +88,7 @@ impl SvgElement {
 //@ - r == self.attrs@.dom().contains(key@)
 //@end
 //@item src/element.rs :: impl SvgElement :: fn has_foreign_position
-//@ strlit "rect" "box" "point" "use" "reuse" "image" "svg" "foreignObject" "circle" "ellipse" "line" "polyline" "polygon" "path" "cx" "cy" "x1" "y1" "x2" "y2" "x" "y" "width" "height"
+//@ strlit "rect" "box" "point" "text" "use" "reuse" "image" "svg" "foreignObject" "circle" "ellipse" "line" "polyline" "polygon" "path" "cx" "cy" "x1" "y1" "x2" "y2" "x" "y" "width" "height"
 //@ replace[R-any] <<<foreign.iter().any(|a| self.has_attr(a))>>> => <<<any_attr(self, foreign)>>>
 //@ body-start
 //@ | proof { reveal_with_fuel(has_any, 10); }
